@@ -36,6 +36,24 @@
 //!                              `scaled=<reported> mh=<ceiling> mins=<kept> [abunds=<..>] compat=<check_compatible
 //!                              of a sketch created at the reported scaled> merged=<its size after merge>`
 //!                              or `err CannotUpsampleScaled`
+//!
+//! Stream 6 (`case … sigstores`): `SigStore` as a consumer - `impl Select for SigStore` works on a lazily
+//! initialised `data` cell, and what the store DELIVERS after an accepted selection must report the
+//! requested value whatever state the cell was in.
+//!   selstore <route> <prog> <c> <num> <s> [<s2>]
+//!         a signature holding a vector sketch created at c (size bound num; c = 0: a num sketch) and a
+//!         tree sketch created at 1, one hash each, wrapped in a store by <route>; the letters of <prog> run
+//!         in order, then `data()`: `ok <scaled reported by each delivered sketch>` / `err <Variant>`
+//!           routes  from        SigStore::from(sig)                              data filled, no storage
+//!                   nws         SigStore::new_with_storage(sig, memory)          data filled, storage
+//!                   lmem | lfs  InnerStorage::load_sig(path)                     data filled (fs: through JSON)
+//!                   bmem | bfs  SigStore::builder().filename(path).name(..).metadata(..)
+//!                               .storage(Some(storage)).build()                  data EMPTY, read on demand
+//!                   dsi         SigStore::from(DatasetInfo {..})                 data empty, no storage
+//!           prog    r `data()`   k continue with a clone   K `data()` on a clone (the store stays as it was)
+//!                   s select(scaled = s)   t select(scaled = s2)   - nothing
+//!   selstoreget …   the same, but a REFUSED select is retried the way a caller has to (`data()` first,
+//!                   then select again): what the caller holds after an accepted selection
 use sourmash::cmd::ComputeParameters;
 use sourmash::collection::Collection;
 use sourmash::encodings::HashFunctions;
@@ -51,6 +69,7 @@ use sourmash::sketch::minhash::{
     max_hash_for_scaled, scaled_for_max_hash, KmerMinHash, KmerMinHashBTree,
 };
 use sourmash::sketch::Sketch;
+use sourmash::storage::{DatasetInfo, FSStorage, InnerStorage, MemStorage, SigStore, Storage};
 use verif_harness::*;
 
 fn gen(a: &Args) {
@@ -262,6 +281,44 @@ fn gen(a: &Args) {
             hs.swap(a, b);
         }
         o.op(&format!("dsmh {} {} {} {} {}", if r.chance(1, 2) { "t" } else { "v" }, s, m, r.below(2), show_nats(hs)));
+    }
+    // stream 6: SigStore in every state of its data cell as a consumer of the reported value
+    o.case("sigstores");
+    let n = if thorough { 30_000 } else { 2_500 };
+    const SROUTES: &[&str] = &["from", "nws", "lmem", "lfs", "bmem", "bmem", "bfs", "bfs", "dsi"];
+    const PROGS: &[&str] = &[
+        "s", "s", "s", "rs", "ks", "Ks", "Krs", "sr", "st", "st", "rst", "srt", "skt", "sKt", "kst", "-", "r", "K", "ss", "sts",
+    ];
+    for i in 0..n {
+        let c = match r.below(10) {
+            0 => *r.pick(&[1u64, 2, 10, 100, 1000, 1000, 2000, 10_000]),
+            1 => *r.pick(&[92u64, 93, 94, TOP31, TOP31 - 1, 1 << 30, 65_536, 1_000_003]),
+            2 => r.bits(31).max(1),
+            3 if i % 3 == 0 => 0,
+            _ => r.range(1, 100_000),
+        };
+        let near = |r: &mut Rng, c: u64| -> u64 {
+            (match r.below(12) {
+                0 => c,
+                1 => c + 1,
+                2 => c.saturating_sub(1),
+                3 | 4 => c * r.range(2, 10),
+                5 => c / 2,
+                6 => *r.pick(&[1u64, 1000, 2000, 10_000, 100_000, TOP31, u32::MAX as u64]),
+                7 => r.bits(31),
+                _ => r.range(c, c.saturating_mul(1000).max(2)),
+            })
+            .clamp(1, u32::MAX as u64)
+        };
+        let s = near(&mut r, c.max(1));
+        let s2 = near(&mut r, s);
+        let num = *r.pick(&[0u64, 0, 1, 500]);
+        let num = if c == 0 && num == 0 { 500 } else { num };
+        let route = *r.pick(SROUTES);
+        let prog = *r.pick(PROGS);
+        for op in ["selstore", "selstoreget"] {
+            o.op(&format!("{} {} {} {} {} {} {}", op, route, prog, c, num, s, s2));
+        }
     }
     // stream 3: manifests and selection as consumers of the reported value: rows whose scaled is just
     // below / at / just above the request, multiples, num rows (reported scaled 0), rows with both;
@@ -522,8 +579,114 @@ fn sig_with(mh: KmerMinHash) -> Signature {
     sig
 }
 
+fn err_name<E: std::fmt::Debug>(e: E) -> String {
+    let s = format!("{:?}", e);
+    format!("err {}", s.chars().take_while(|c| c.is_alphanumeric()).collect::<String>())
+}
+
+/// a scratch directory for a filesystem-backed store (tmpfs when there is one: durability is not what
+/// this is about); removed when the value is dropped
+fn store_dir() -> tempfile::TempDir {
+    let shm = std::path::Path::new("/dev/shm");
+    if shm.is_dir() {
+        if let Ok(d) = tempfile::Builder::new().prefix("verif-c14-").tempdir_in(shm) {
+            return d;
+        }
+    }
+    verif_harness::index_util::scratch_dir()
+}
+
+/// `selstore` / `selstoreget`
+fn sel_store(ws: &[&str], retry: bool) -> String {
+    let n = |i: usize| -> u64 { ws[i].parse().unwrap() };
+    let (route, prog, c, num, s) = (ws[1], ws[2], n(3), n(4) as u32, n(5) as u32);
+    let s2 = ws.get(6).map(|w| w.parse::<u32>().unwrap()).unwrap_or(s);
+    let mut v = KmerMinHash::new(c, 21, HashFunctions::Murmur64Dna, 42, false, num);
+    v.add_hash(7);
+    let mut t = KmerMinHashBTree::new(1, 21, HashFunctions::Murmur64Dna, 42, false, 0);
+    t.add_hash(7);
+    let mut sig = Signature::default();
+    sig.set_name("x");
+    sig.set_filename("x.fa");
+    sig.push(Sketch::MinHash(v));
+    sig.push(Sketch::LargeMinHash(t));
+    let path = "x.sig".to_string();
+    // declared before the store: dropped (and removed) after it
+    let dir = if route.ends_with("fs") { Some(store_dir()) } else { None };
+    let storage = |sig: &Signature| -> InnerStorage {
+        if let Some(dir) = &dir {
+            let fs = FSStorage::new(dir.path().to_str().unwrap(), "");
+            fs.save_sig(&path, sig.clone()).unwrap();
+            InnerStorage::new(fs)
+        } else {
+            let mem = MemStorage::new();
+            mem.save_sig(&path, sig.clone()).unwrap();
+            InnerStorage::new(mem)
+        }
+    };
+    let mut store: SigStore = match route {
+        "from" => SigStore::from(sig),
+        "nws" => {
+            let st = storage(&sig);
+            SigStore::new_with_storage(sig, st)
+        }
+        "lmem" | "lfs" => match storage(&sig).load_sig(&path) {
+            Ok(s) => s,
+            Err(e) => return err_name(e),
+        },
+        "bmem" | "bfs" => SigStore::builder()
+            .filename(path.clone())
+            .name(sig.name())
+            .metadata("")
+            .storage(Some(storage(&sig)))
+            .build(),
+        "dsi" => SigStore::from(DatasetInfo { filename: path.clone(), name: sig.name(), metadata: "".into() }),
+        _ => return "bad-op".into(),
+    };
+    for l in prog.chars() {
+        match l {
+            'r' => {
+                let _ = store.data();
+            }
+            '-' => {}
+            'k' => store = store.clone(),
+            'K' => {
+                let c = store.clone();
+                let _ = c.data();
+            }
+            's' | 't' => {
+                let mut sel = Selection::default();
+                sel.set_scaled(if l == 's' { s } else { s2 });
+                let spare = if retry { Some(store.clone()) } else { None };
+                store = match store.select(&sel) {
+                    Ok(x) => x,
+                    Err(e) => match spare {
+                        None => return err_name(e),
+                        Some(spare) => {
+                            if let Err(e) = spare.data() {
+                                return err_name(e);
+                            }
+                            match spare.select(&sel) {
+                                Ok(x) => x,
+                                Err(e) => return err_name(e),
+                            }
+                        }
+                    },
+                };
+            }
+            _ => return "bad-op".into(),
+        }
+    }
+    // what the store delivers: `data()` and, from it, `sketches()`
+    match store.data() {
+        Ok(sig) => format!("ok {}", show_nats(scaleds(sig))),
+        Err(e) => err_name(e),
+    }
+}
+
 fn step(st: &mut Vec<Signature>, ws: &[&str]) -> String {
     match ws[0] {
+        "selstore" | "selstoreget" => return sel_store(ws, ws[0] == "selstoreget"),
         "mrow" => {
             let n = |i: usize| -> u64 { ws[i].parse().unwrap() };
             let mh = KmerMinHash::new(n(2), n(1) as u32, HashFunctions::Murmur64Dna, 42, false, n(3) as u32);
